@@ -26,7 +26,7 @@ def c03_bombs(r, seed, tier, model_ok):
     def val(): return R.choice([E(R.randrange(-5, 6)), "(ㄴ ㄷ ㄷㅎㄷ)", "(ㄱ ㅁㅈㅎㄴ)", T, F, "(ㄴ ㄷ ㅁㄹㅎㄷ)"])
     def shape(hole):
         """returns a program text with `hole` placed in a position that must never be evaluated"""
-        k = R.randrange(12); v = val()
+        k = R.randrange(13) if R.random() < .8 else 12; v = val()
         if k == 0: return f"{v} {hole} (ㄱㅇㄱ ㅎ) ㅎㄷ", "unused-argument"
         if k == 1: return f"{hole} {v} (ㄴㅇㄱ ㅎ) ㅎㄷ", "unused-argument"
         if k == 2: return f"{v} {hole} {T} ㅎㄷ", "unselected-branch"
@@ -42,12 +42,29 @@ def c03_bombs(r, seed, tier, model_ok):
         if k == 8: return f"{E(1)} {call('ㅅㅈ', [E(1), v, E(2), hole])} ㅎㄴ", "dict-other-value"
         if k == 9: return f"{v} ({hole} ㅎ) ㅅㄷㅎㄷ", "handler-not-needed"
         if k == 10: return f"({v} {hole} (ㄱㅇㄱ ㅎ) ㅎㄷ) ({hole} ㅎ) ㅅㄷㅎㄷ", "nested"
+        if k == 12:   # list elements handed to functions that never look at them: folds (both directions), map, filter, pipe / collect / spread
+            lst = call("ㅁㄹ", [v, hole, val()])          # the bomb is an INTERMEDIATE element: never the fold's result
+            kk = R.randrange(8)
+            if kk == 0: return call("ㅅㄹ", ["(ㄴㅇㄱ ㅎ)", lst]), "left-fold-ignores-accumulator"          # f(acc, x) = x
+            if kk == 1: return call("ㅅㄹ", ["(ㄴ ㅎ)", E(0), lst]), "left-fold-constant"
+            if kk == 2: return call("ㅅㄹ", [lst, "(ㄱㅇㄱ ㅎ)"]), "right-fold-ignores-accumulator"          # f(x, acc) = x
+            if kk == 3: return call("ㅅㄹ", [lst, E(0), "(ㄴ ㅎ)"]), "right-fold-constant"
+            if kk == 4: return call("ㅈㄷ", [call("ㅁㄷ", [lst, "(ㄴ ㅎ)"])]) , "map-constant-len"
+            if kk == 5: return call("ㅁㄷ", [lst, "(ㄴ ㅎ)"]), "map-constant"
+            if kk == 6: return call("ㅈㄷ", [call("ㅅㅂ", [lst, "(ㅈㅈㅎㄱ ㅎ)"])]), "filter-constant-len"
+            return f"{v} {hole} {call('ㅂㅂ', ['ㅈㄷ'])} ㅎㄷ", "spread-len"
+        if k == 12: pass
         inner, kk = shape(hole); return f"{inner} {hole} (ㄱㅇㄱ ㅎ) ㅎㄷ", "nested-" + kk
     cases = []; twins = []; kinds = collections.Counter()
     for _ in range(n):
         st = R.getstate(); bn = R.choice(list(BOMBS)); t, k = shape(BOMBS[bn]); R.setstate(st); R.choice(list(BOMBS)); tw, _ = shape(E(7))
         cases.append(dict(text=t, bomb=bn, stdin=["a"])); twins.append(dict(text=tw, stdin=["a"], trace=False)); kinds[k.split("/")[0] + ":" + bn] += 1
     a = impl_run(cases); b = impl_run(twins); bad = []
+    import re as _re
+    for c, x in zip(cases, a):          # direct oracle: no 'about to evaluate' event may point inside the marked sub-expression
+        bt = BOMBS[c["bomb"]]; ranges = [(m.start(), m.end()) for m in _re.finditer(_re.escape(bt), c["text"])]
+        inside = [ev for ev in x.split("\tEV ")[1].split() if ev.startswith("B") and any(lo <= int(ev.split("@")[1].split(":")[1]) and int(ev.split("@")[1].split(":")[2].split("#")[0]) <= hi for lo, hi in ranges)]
+        if inside: bad.append(dict(program=c["text"], impl=f"evaluation events inside the marked sub-expression: {inside[:4]}", model="the marked sub-expression is never evaluated", which=["bomb-evaluated-" + c["bomb"]]))
     for c, x, y in zip(cases, a, b):
         if out_of(x) != out_of(y) and "TIMEOUT" not in x + y:
             bad.append(dict(program=c["text"], impl=str(out_of(x))[:200], model="the bomb-free twin gives " + str(out_of(y))[:200], which=["bomb-" + c["bomb"]]))
@@ -86,7 +103,10 @@ def c10_faults(r, seed, tier, model_ok):
         for _ in range(R.randrange(0, 4)):
             h = R.choice(list(HANDLERS)); hs.append(h); t = f"({t} {HANDLERS[h]} ㅅㄷㅎㄷ)"
             if R.random() < .3: t = wrap(t, 1)
-        if R.random() < .2: t = f"{t} {t} ㅁㄹㅎㄷ".replace(f"{t} {t}", f"({t}) ({t})") if False else call("ㅁㄹ", [f"({t})", f"({t})"])   # needed twice
+        if R.random() < .2: t = call("ㅁㄹ", [f"({t})", f"({t})"])
+        if R.random() < .3:      # the SAME delayed expression (bound to a parameter) needed by two or three tries in turn, and once more outside any try
+            uses = [f"(ㄱㅇㄱ {HANDLERS[R.choice(list(HANDLERS))]} ㅅㄷㅎㄷ)" for _ in range(R.randrange(2, 4))] + (["(ㄱㅇㄱ)"] if R.random() < .3 else [])
+            R.shuffle(uses); t = f"({body}) ({call('ㅁㄹ', uses)} ㅎ) ㅎㄴ"; hs.append("shared")
         cases.append(dict(text=t)); kinds[fn + "/" + "+".join(hs[:2])] += 1
     a = impl_run(cases)
     # oracle 1: a try with the marker handler around a faulty body must yield the marker
